@@ -124,6 +124,13 @@ static long alloc_checked(unsigned size)
 
     if (o == -1) {
         CHECK(osz == 0, "a failed allocation returns the empty buffer");
+        /* known finding: a ring that was emptied by pop_end() keeps front_ == end_ at the position `pos` where the last PDU
+         * ended and only offers the space behind or (minus one byte) before that position.  The region is exactly: ring empty,
+         * request within the documented guarantee (<= Size - 1), request fits neither behind nor strictly before pos, and
+         * the allocation failed.  (Placed behind the const call: nothing inside the call is masked.) */
+        long pos = m_n > 0 ? m_off[m_n - 1] + (long)m_len[m_n - 1] : 0;
+        VF_KNOWN_FINDING(c18_emptied_ring_keeps_split_position,
+                         stored == 0 && size <= SZ - 1 && (long)size > (long)SZ - pos && (long)size >= pos);
         CHECK(!must, "alloc_front() fails only when the ring's rules leave no contiguous room of the requested size");
         return -1;
     }
